@@ -182,6 +182,8 @@ def realize(d):
         return {realize_key(k): realize(v) for k, v in d.items()}
     if isinstance(d, list):
         return [realize(x) for x in d]
+    if isinstance(d, tuple) and type(d) is not tuple:
+        return d                      # a tuple subclass of the host (namedtuple, struct_time): handed over as it is
     if isinstance(d, tuple):
         return tuple(realize(x) for x in d)
     if isinstance(d, (set, frozenset)):
@@ -543,6 +545,63 @@ def stubs(mon, rec):
                               {'kind': 'stub', 'desc': desc})
 
 
+def prepared_context(mon, rec, rng):
+    """one converted document bound once in a prepared context (create_context(data=doc)) and finalised again and
+    again - by engines with different options, before and after the host edited an earlier result: every result is the
+    canonical form of the document under the options in force, and results are independent objects"""
+    import collections as _c
+    import time as _time
+    Row = _c.namedtuple('Row', 'id name')
+    docs = [gen_doc(rng, 3, [20]) for _ in range(6)] + [
+        {'tags': {1, 2}, 'pair': (1, (2, 3)), 'rows': [(1, 'a')], 'nested': {'k': (1, 2)}},
+        {'row': Row(1, 'a'), 'rows': [Row(2, 'b'), Row(3, 'c')], 't': _time.struct_time((2020, 1, 2, 3, 4, 5, 6, 7, 0))},
+        [Row(1, 'x'), (1, 2)], Row(5, (6, 7))]
+    for doc in docs:
+        if 'Gen(' in repr(doc) or 'View(' in repr(doc):
+            continue            # one-shot parts of a document can be read once
+        try:
+            ctx = yaql.create_context(data=realize(doc))
+        except Exception:
+            continue
+        order = list(mon.engines)
+        rng.shuffle(order)
+        for opts, eng in order[:8]:
+            rec.count('roundtrip.checked')
+            rec.count('roundtrip.prepared_context')
+            rec.case(('prepared', repr(doc), tuple(sorted(opts.items()))), nontrivial=has_container(doc))
+            try:
+                want = canonical(plain_tuples(doc), opts)
+            except Unhashable:
+                continue
+            try:
+                got = eng('$').evaluate(context=ctx)
+            except Exception as e:
+                rec.violation(mon.classify_exc(e), '`$` on a context prepared with %r, options %r, raised %s: %s' % (
+                    doc, opts, type(e).__name__, e), {'kind': 'prepared', 'doc': repr(doc)})
+                continue
+            if not same(got, want):
+                rec.violation('roundtrip-differs:prepared-context', '`$` on a context prepared with %r gives %r under %r, canonical form is %r' % (
+                    doc, got, opts, want), {'kind': 'prepared', 'doc': repr(doc)})
+            # the host edits what it got; the next result must not show the edit
+            if isinstance(got, dict):
+                got['edited-by-host'] = 1
+            elif isinstance(got, list):
+                got.append('edited-by-host')
+
+
+def plain_tuples(d):
+    """tuple subclasses of the host (namedtuples, struct_time) are tuples"""
+    if isinstance(d, tuple) and type(d) is not tuple:
+        return tuple(plain_tuples(x) for x in d)
+    if isinstance(d, tuple):
+        return tuple(plain_tuples(x) for x in d)
+    if isinstance(d, list):
+        return [plain_tuples(x) for x in d]
+    if isinstance(d, dict):
+        return {k: plain_tuples(v) for k, v in d.items()}
+    return d
+
+
 def plan(tier, seed):
     thorough = tier == 'thorough'
     shards = []
@@ -579,6 +638,7 @@ def run_shard(spec, rec):
                 if i % 100 == 0:
                     rec.sample({'kind': 'expr', 'text': text})
         else:
+            prepared_context(mon, rec, rng)
             stubs(mon, rec)
             for text in FIXED_EXPRS:
                 mon.expression(text, {'a': [1, {'b': 2}], 'c': (3, 4)})
@@ -597,8 +657,14 @@ def run_shard(spec, rec):
 def replay(data, rec):
     mon = Mon(rec)
     try:
-        doc = eval(data.get('doc', 'None'), {'Gen': Gen, 'View': View, 'frozenset': frozenset, 'set': set})
-        if data['kind'] == 'stub':
+        try:
+            doc = eval(data.get('doc', 'None'), {'Gen': Gen, 'View': View, 'frozenset': frozenset, 'set': set})
+        except Exception:
+            doc = None
+        if data['kind'] == 'prepared':
+            prepared_context(mon, rec, rng_for(0, 'c10', 'fixed'))
+            rec.violations = [v for v in rec.violations if v['replay'].get('doc') == data.get('doc')][:3]
+        elif data['kind'] == 'stub':
             stubs(mon, rec)
             rec.violations = [v for v in rec.violations if v['replay'].get('desc') == data.get('desc')][:3]
         elif data['kind'] == 'roundtrip':
